@@ -711,6 +711,19 @@ func blockContainsAccounts(block *old_faithful_grpc.BlockResponse, accounts []st
 	return false
 }
 
+// transactionFailed reports whether the status metadata records an error. getErr alone is not
+// enough: it renders the error for JSON and yields nil for every recorded error it cannot decode
+// (e.g. an error without payload), which made such failed transactions pass a failed=false filter.
+func transactionFailed(meta any) bool {
+	if getErr(meta) != nil {
+		return true
+	}
+	if m, ok := meta.(*confirmed_block.TransactionStatusMeta); ok && m != nil && m.Err != nil && len(m.Err.Err) > 0 {
+		return true
+	}
+	return false
+}
+
 func (multi *MultiEpoch) StreamTransactions(params *old_faithful_grpc.StreamTransactionsRequest, ser old_faithful_grpc.OldFaithful_StreamTransactionsServer) error {
 	ctx := ser.Context()
 
@@ -771,8 +784,7 @@ func (multi *MultiEpoch) processSlotTransactions(
 		}
 
 		if filter.Failed != nil && !(*filter.Failed) { // If failed is false, we should filter out failed transactions
-			err := getErr(meta)
-			if err != nil {
+			if transactionFailed(meta) {
 				return false
 			}
 		}
